@@ -79,6 +79,8 @@ def gen_histories(ctx, pools, n, chunk_no):
         if covered and lid not in c17lib.COVERED_LANGS:
             lid = rng.choice(c17lib.COVERED_LANGS)   # (WV encodes the text of typed elements as opaque integers / dates: C-only stream)
         xmlgen = rng.choice([0, 1, 2]) if mode == "X" else 0
+        if not covered and rng.chance(1, 3):
+            xmlgen += 10                     # ignore_empty_text + remove_text_blanks: blank text nodes encode to nothing
         nodes_only = rng.chance(2, 5)          # nodes only, each at most once: the literal batch exists for every remainder
         pool, infos = pools.pool(rng, lid, covered, mode == "X", big=nodes_only)
         ops = c17lib.history(rng, infos, rng.range(3, 40), raw=not nodes_only, drate=rng.choice([5, 10, 20, 30]))
